@@ -47,10 +47,10 @@ var bases = map[string]quic.QUICID{
 var baseNames = []string{"chrome115", "chrome115v6", "firefox116a", "firefox116b", "firefox116c", "chrome146", "chrome146v6"}
 
 // keys of the parameters this property is about, in canonical print order
-var keys = []string{"mit", "mups", "imd", "imsdbl", "imsdbr", "imsdu", "imsb", "imsu", "ade", "mad", "acil", "mdfs"}
+var keys = []string{"mit", "mups", "imd", "imsdbl", "imsdbr", "imsdu", "imsb", "imsu", "ade", "mad", "acil", "mdfs", "dam"}
 
 var keyID = map[string]uint64{"mit": 0x1, "mups": 0x3, "imd": 0x4, "imsdbl": 0x5, "imsdbr": 0x6, "imsdu": 0x7,
-	"imsb": 0x8, "imsu": 0x9, "ade": 0xa, "mad": 0xb, "acil": 0xe, "mdfs": 0x20}
+	"imsb": 0x8, "imsu": 0x9, "ade": 0xa, "mad": 0xb, "dam": 0xc, "acil": 0xe, "mdfs": 0x20}
 
 func mkParam(key string, v uint64) tls.TransportParameter {
 	switch key {
@@ -104,6 +104,8 @@ func paramValue(p tls.TransportParameter) (key string, v uint64, ok bool) {
 		return "acil", uint64(x), true
 	case tls.MaxDatagramFrameSize:
 		return "mdfs", uint64(x), true
+	case *tls.DisableActiveMigration:
+		return "dam", 1, true
 	}
 	return "", 0, false
 }
